@@ -23,9 +23,13 @@ var c02RoundTrips int
 // c02Claimed checks Query/Claimed against the paid set, in both directions, for every tuple
 // ever offered and on every bridge.
 func c02Claimed(w *l1World, offered map[string]wd) error {
+	ids := w.ids
+	if len(w.active) > 0 {
+		ids = w.active // a chain with hundreds of bridges: the ones the history works on
+	}
 	for _, t := range offered {
 		h := t.leaf()
-		for _, id := range w.ids {
+		for _, id := range ids {
 			res, err := w.e.Q.Claimed(w.e.Ctx, &ophosttypes.QueryClaimedRequest{BridgeId: id, WithdrawalHash: h[:]})
 			if err != nil {
 				return err
@@ -43,7 +47,7 @@ func TestC02Rapid(t *testing.T) {
 	rec := evid.For("C02")
 	runRapid(t, 300, 6000, func(rt *rapid.T) {
 		c := rec.Begin()
-		w := newL1World(rt, l1Cfg{weights: c02Weights, maxBridges: 2, badCfgProb: 0, periods: []time.Duration{time.Second, 10 * time.Second}})
+		w := newL1World(rt, l1Cfg{weights: c02Weights, maxBridges: 2, badCfgProb: 0, manyBridges: true, periods: []time.Duration{time.Second, 10 * time.Second}})
 		for i := rapid.IntRange(1, 2).Draw(rt, "initial"); i > 0; i-- {
 			st := w.opCreate(rt, true)
 			if st != nil && st.Res.OK() {
@@ -66,6 +70,7 @@ func TestC02Rapid(t *testing.T) {
 		if rapid.IntRange(0, 39).Draw(rt, "bulk") == 0 {
 			bulkAt = rapid.IntRange(0, 20).Draw(rt, "bulkAt")
 		}
+		restarted := false
 		repeatSteps(rt, 50, func(i int) {
 			paidBefore := map[string]bool{}
 			for _, id := range w.ids {
@@ -86,6 +91,7 @@ func TestC02Rapid(t *testing.T) {
 				// what has been paid stays paid
 				w.restart(rt)
 				c.Class("genesis-round-trip-inside-history")
+				restarted = true
 			}
 			pre := w.balances()
 			// one step in six runs with a token hook on the bank transfer that submits the claim being
@@ -152,6 +158,9 @@ func TestC02Rapid(t *testing.T) {
 					}
 					post := w.balances()
 					esc, to := escrowAddr(tu.Bridge).String(), tu.To
+					if a, err := sdk.AccAddressFromBech32(to); err == nil {
+						to = a.String() // balances are looked up under the canonical spelling of the account
+					}
 					coin := sdk.NewCoin(tu.Denom, math.NewIntFromUint64(tu.Amount))
 					pe, _ := parseCoins(pre[esc])
 					qe, _ := parseCoins(post[esc])
@@ -171,7 +180,17 @@ func TestC02Rapid(t *testing.T) {
 					}
 				}
 			}
-			if err := c02Claimed(w, offered); err != nil {
+			// with more than 500 withdrawals on record the complete sweep runs after a restart and every tenth step,
+			// the steps in between look at what this step touched
+			sweep := offered
+			if len(offered) > 500 && !restarted && i%10 != 9 {
+				sweep = map[string]wd{}
+				if st.Kind == "claim" {
+					sweep[st.Tuple.key()] = *st.Tuple
+				}
+			}
+			restarted = false
+			if err := c02Claimed(w, sweep); err != nil {
 				rt.Fatalf("C02 violated after step %d: %v\nhistory:\n%s", i, err, w.history())
 			}
 		})
